@@ -365,6 +365,15 @@ def solve_obligation(ob: Obligation, timeout_ms=10000, use_cli=True, bounded=Fal
     if r != z3.unsat and not bounded:
         # one retry with another seed and a longer budget (verdicts must not flip on a loaded machine)
         s, r = _z3_check(ob, timeout_ms * 3, 7)
+        if r != z3.unsat:
+            # the budgets are wall-clock: on a machine whose cores are all busy (other checks, a test suite) a query that
+            # takes 8 s alone can miss 30 s.  Only then: a third, much longer attempt.
+            try:
+                busy = os.getloadavg()[0] > 0.75 * (os.cpu_count() or 4)
+            except OSError:
+                busy = False
+            if busy:
+                s, r = _z3_check(ob, timeout_ms * 10, 11)
     ob.time_s = time.time() - t0
     if r == z3.unsat:
         ob.status, ob.backend = "discharged", "z3-5.1.0-inproc"
